@@ -718,7 +718,19 @@ def eval_comprehension(interp: Interp, node, st: St, kind):
                     yield s1, r1
             yield s0, ("ok", V("gen", thunk))
         else:
-            for s1, r1 in run_comprehension(interp, node, g, s0, x, kind):
+            try:
+                comp_results = list(run_comprehension(interp, node, g, s0.fork() if kind == "dict" else s0, x, kind))
+            except Unsupported:
+                if kind != "dict" or as_concrete_items(interp, s0, x) is not None:
+                    raise
+                # a dict comprehension whose body the engine cannot quantify: a NEW dict of unknown content; exceptions and
+                # effects of the body are NOT modelled (stated in the evidence)
+                from .verify import new_symbolic_dict
+                interp.ctx.assume_note("dict comprehension over a symbolic sequence abstracted: a new dict of unknown content; its body "
+                                       "is assumed not to raise and to have no effect")
+                yield s0, ("ok", new_symbolic_dict(interp, s0, "dcomp", fresh=True))
+                continue
+            for s1, r1 in comp_results:
                 if r1[0] != "ok":
                     yield s1, r1
                     continue
@@ -744,7 +756,12 @@ def eval_comprehension(interp: Interp, node, st: St, kind):
                     yield s1, ("ok", make_sequence(interp, s1, set, sv))
                 elif kind == "dict":
                     if sv[0] != "items":
-                        raise Unsupported("dict comprehension over a symbolic sequence")
+                        # over a symbolic sequence: a NEW dict whose content is left unconstrained (sound over-approximation;
+                        # enough for freshness / frame statements)
+                        from .verify import new_symbolic_dict
+                        interp.ctx.assume_note("a dict comprehension over a symbolic sequence yields a new dict of unknown content")
+                        yield s1, ("ok", new_symbolic_dict(interp, s1, "dcomp", fresh=True))
+                        continue
                     bad = None
                     for p in sv[1]:
                         k = p.d[0]
